@@ -37,6 +37,8 @@ pub enum VerifEvent {
     /// The conflict report is about to be computed from this clause, which is
     /// falsified at the root level.
     AnalyzeUnsolvable(u32),
+    /// `decide` was called while this many clauses were allocated.
+    Decide(u32),
 }
 
 /// A unit of work of the encoder (`u32::MAX` is the root).
